@@ -110,6 +110,8 @@ def _add_enum(container, e, docs, path):
             en.value.add(name=v[0], number=v[1])
         else:
             en.value.add(name=v, number=i)
+    if e.get('allow_alias'):
+        en.options.allow_alias = True
     return en
 
 
